@@ -19,6 +19,44 @@ func (t *Table) isAncestor(anc, f string) bool {
 	return false
 }
 
+var partners = map[string]string{"r.deliver.sign_hmac": "r.deliver.sign_ref", "r.deliver.sign_ref": "r.deliver.sign_hmac",
+	"r.publish": "r.publish_mix", "r.publish_mix": "r.publish"}
+
+// fixNm drops the near-miss instance when what it repeats (or its parent) is gone.
+func (t *Table) fixNm(p Program) Program {
+	if len(p.Nm) == 0 {
+		return p
+	}
+	x := p.Nm[0]
+	has := func(r int, f string, i int) bool {
+		for _, it := range p.Items {
+			if it.R == r && it.F == f && it.I == i {
+				return true
+			}
+		}
+		return false
+	}
+	ok := x.R <= len(p.Routes)
+	if par := t.ByID[x.F].Par; ok && par != "top" && par != "route" {
+		pi := 1
+		if t.IdxRoot(par) != "" {
+			pi = x.I
+		}
+		ok = has(x.R, par, pi)
+	}
+	if ok && !has(x.R, x.F, x.I) {
+		pi := 1
+		if t.IdxRoot(partners[x.F]) != "" {
+			pi = x.I
+		}
+		ok = partners[x.F] != "" && has(x.R, partners[x.F], pi)
+	}
+	if !ok {
+		p.Nm = []NM{}
+	}
+	return p
+}
+
 // dropItem removes item k and its descendants; higher instances of an indexed feature move down.
 func (t *Table) dropItem(p Program, k int) Program {
 	it := p.Items[k]
@@ -37,7 +75,14 @@ func (t *Table) dropItem(p Program, k int) Program {
 		}
 		q.Items = append(q.Items, x)
 	}
-	return q
+	if len(q.Nm) == 1 && t.ByID[it.F].Idx && q.Nm[0].R == it.R && t.IdxRoot(q.Nm[0].F) == it.F {
+		if q.Nm[0].I == it.I {
+			q.Nm = []NM{}
+		} else if q.Nm[0].I > it.I {
+			q.Nm[0].I--
+		}
+	}
+	return t.fixNm(q)
 }
 
 func (t *Table) dropRoute(p Program, k int) Program {
@@ -52,6 +97,13 @@ func (t *Table) dropRoute(p Program, k int) Program {
 			x.R--
 		}
 		q.Items = append(q.Items, x)
+	}
+	if len(q.Nm) == 1 {
+		if q.Nm[0].R == k+1 {
+			q.Nm = []NM{}
+		} else if q.Nm[0].R > k+1 {
+			q.Nm[0].R--
+		}
 	}
 	// repair wrapper joins
 	for j := range q.Routes {
@@ -146,6 +198,19 @@ func (t *Table) Shrink(p Program, fails func(Program) bool, budget int) Program 
 	}
 	for changed := true; changed && budget > 0; {
 		changed = false
+		if len(p.Nm) == 1 {
+			q := p.Clone()
+			q.Nm = []NM{}
+			if try(q) {
+				p, changed = q, true
+			} else if p.Nm[0].Kf != "-" && !(p.Nm[0].F == "r.publish" && p.Nm[0].Sp == "dot") {
+				q = p.Clone()
+				q.Nm[0].Kf, q.Nm[0].Kv = "-", "-"
+				if try(q) {
+					p, changed = q, true
+				}
+			}
+		}
 		for k := len(p.Routes) - 1; k >= 0; k-- {
 			if q := t.dropRoute(p, k); try(q) {
 				p, changed = q, true
